@@ -43,6 +43,16 @@ fn scenario(ctx: &Ctx, i: u64) -> (Logical, bool) {
         l.class = String::from("zero runs in and at the end of the tile data");
         return (l, asyncm);
     }
+    if i % 24 == 15 {
+        // tiles whose ids lie beyond zoom 31, with contents of their own stored behind everything else
+        let mut l = gen::gen_logical(&mut rng, SizeClass::Small, codec);
+        let dom = gen::id_domain();
+        for (k, id) in [dom, dom + 7, 1u64 << 63, u64::MAX - 11].into_iter().enumerate() {
+            l.tiles.insert(id, std::rc::Rc::new(rng.bytes(20 + k * 13)));
+        }
+        l.class.push_str("/ids-beyond-zoom-31");
+        return (l, asyncm);
+    }
     let l = match (i / 8) % 6 {
         0 => gen::gen_logical(&mut rng, SizeClass::Empty, codec),
         1 => gen::gen_logical(&mut rng, SizeClass::One, codec),
